@@ -101,7 +101,7 @@ type c13Sched struct {
 	stats *VStats
 	nops  int
 
-	ovfSlack map[*UdpTaskQueue]int
+	ovfSlack map[*UdpTaskQueue][2]int
 }
 
 func (sc *c13Sched) hook(name string, args ...any) {
@@ -212,13 +212,14 @@ func (sc *c13Sched) qDigest(q *UdpTaskQueue) string {
 	if ovf > UdpTaskQueueLength*2 {
 		sc.stats.Inc("tq.digest.overflow>256")
 	}
-	if prev, ok := sc.ovfSlack[q]; ok && prev > 96 && ovf > 0 && capNow == ovf {
+	// (a pop takes one slot off the front of the backing array; a compaction takes many at once)
+	if prev, ok := sc.ovfSlack[q]; ok && ovf > 0 && prev[1] >= ovf && prev[0]-capNow > prev[1]-ovf+8 {
 		sc.stats.Inc("tq.overflow.sliceShrunk")
 	}
 	if sc.ovfSlack == nil {
-		sc.ovfSlack = map[*UdpTaskQueue]int{}
+		sc.ovfSlack = map[*UdpTaskQueue][2]int{}
 	}
-	sc.ovfSlack[q] = capNow - ovf
+	sc.ovfSlack[q] = [2]int{capNow, ovf}
 	// the encoding of "claimed" (a negative sentinel today) is not part of the property
 	refs := fmt.Sprint(q.refs.Load())
 	if q.refs.Load() < 0 {
@@ -734,6 +735,46 @@ func (sc *c13Sched) volume(r *VRand, nprod int, freeze int) {
 	sc.drain(r)
 }
 
+// compacting: producers keep arriving behind a frozen convoy until the overflow list holds at least
+// `minSpill` tasks AND its backing array has more than 160 free slots (i.e. right after an append growth
+// step, whatever the runtime's growth rule is); then the list is drained with no refill.  A pop takes one
+// slot off the front, so `len < cap/4` becomes true while the array still has more than
+// UdpTaskQueueLength slots and dozens of tasks are in the list: popOverflowTask's compaction copy runs on
+// live tasks in every run, whatever the seed.
+func (sc *c13Sched) compacting(r *VRand, minSpill int) {
+	var q *UdpTaskQueue
+	for n := 0; n < 4000; n++ {
+		sc.spawn(0)
+		for {
+			var prods []*c13Thread
+			for _, th := range sc.parked() {
+				if th.isProd {
+					prods = append(prods, th)
+				}
+			}
+			if len(prods) == 0 {
+				break
+			}
+			sc.run(prods[r.Intn(len(prods))])
+		}
+		if q == nil {
+			if v, ok := sc.pool.queues.Load(sc.keys[0]); ok {
+				q = v.(*UdpTaskQueue)
+			}
+		}
+		if q != nil {
+			q.enqueueMu.Lock()
+			l, c := len(q.overflow), cap(q.overflow)
+			q.enqueueMu.Unlock()
+			if l >= minSpill && c-l > 160 {
+				sc.stats.Inc("tq.schedules.compacting.armed")
+				break
+			}
+		}
+	}
+	sc.drain(r)
+}
+
 func c13RunTq(t *testing.T, stats *VStats) {
 	s := VOpenStream("c13_tq")
 	defer s.Close()
@@ -764,6 +805,12 @@ func c13RunTq(t *testing.T, stats *VStats) {
 		nkeys := 1 + i%2*2 // 1 or 3 keys (keys 0 and 1 share the client source)
 		stats.Inc("tq.schedules.volume")
 		c13TqSchedule(t, s, stats, nkeys, func(sc *c13Sched) { sc.volume(rr, nprod, freeze) })
+	}
+
+	for _, minSpill := range []int{140, 300} {
+		rr := r.Fork()
+		stats.Inc("tq.schedules.compacting")
+		c13TqSchedule(t, s, stats, 1, func(sc *c13Sched) { sc.compacting(rr, minSpill) })
 	}
 
 	n := 400
